@@ -166,6 +166,11 @@ func credKinds(repo string) []credKind {
 		kinds = append(kinds, credKind{"notyetvalid:client-test01", tlsOpt(&nv)})
 		un := mint("client-test09", ca, key, now.Add(-time.Hour), now.Add(time.Hour))
 		kinds = append(kinds, credKind{"valid:client-test09", tlsOpt(&un)})
+		// subjects that differ from a permitted client's / a peer's name in letter case only: different identities
+		cv1 := mint("Client-Test01", ca, key, now.Add(-time.Hour), now.Add(time.Hour))
+		cv2 := mint("CLIENT-TEST02", ca, key, now.Add(-time.Hour), now.Add(time.Hour))
+		cv3 := mint("Signer-Test02", ca, key, now.Add(-time.Hour), now.Add(time.Hour))
+		kinds = append(kinds, credKind{"valid:Client-Test01", tlsOpt(&cv1)}, credKind{"valid:CLIENT-TEST02", tlsOpt(&cv2)}, credKind{"valid:Signer-Test02", tlsOpt(&cv3)})
 	}
 	c1 := mustPair(resources.ClientTest01Crt, resources.ClientTest01Key)
 	c2 := mustPair(resources.ClientTest02Crt, resources.ClientTest02Key)
